@@ -678,6 +678,17 @@ def oracle_define(case, obs):
     if "expect" in case and [obs["name"], obs["value"]] != list(case["expect"]):
         return [("parse_user_define(%r) = %r, documented form %s gives %r" % (
             case["text"], (obs["name"], obs["value"]), case["form"], tuple(case["expect"])), "define-documented-form")]
+    # only a *pair* of surrounding quotes is stripped: text that begins with one quote character and ends with the other is
+    # not quoted and is kept as written (around the whole definition as well as around the value)
+    t = case["text"].strip()
+
+    def mismatched(x):
+        return len(x) >= 2 and x[0] in "\"'" and x[-1] in "\"'" and x[0] != x[-1]
+    if "=" in t and (mismatched(t) or mismatched(t.split("=", 1)[1].strip())):
+        want = doc_parse_define(case["text"])
+        if (obs["name"], obs["value"]) != want:
+            return [("parse_user_define(%r) = %r: the text begins with one quote character and ends with the other, which is no "
+                     "surrounding pair; as written it means %r" % (case["text"], (obs["name"], obs["value"]), want), "define-mismatched-quotes")]
     return []
 
 
